@@ -162,7 +162,8 @@ def covN : Node → M Cov
       then ⟨0, 0, n⟩ else ⟨1, 0, n⟩)
   | .cast e => do let c ← covN e; pure ⟨c.up, c.inner, .cast c.mod⟩
   | n@(.unop op e) =>
-    if Gen.uOps.contains op && (e.isId || e.isConst || e.isCast || e.isUnop) then do
+    -- the operand is tested with its casts removed (`while isinstance(operand, Cast)`)
+    if Gen.uOps.contains op && (e.rmCast.isId || e.rmCast.isConst || e.rmCast.isUnop) then do
       let c ← covN e; pure ⟨c.up, c.inner, .unop op c.mod⟩
     else pure ⟨1, 0, n⟩
   | n@(.decl _ ty init) =>
